@@ -165,7 +165,17 @@ fn build(seed: u64) -> Layout {
         main.push_str("include \"does_not_exist.qasm\";\n");
     }
     if r.chance(1, 4) {
-        main.push_str("if (before == 1) { include \"inc0.qasm\"; }\n");
+        // an include below the global scope, in every kind of body
+        main.push_str(*r.pick(&[
+            "if (before == 1) { include \"inc0.qasm\"; }\n",
+            "if (before == 1) { } else { include \"inc0.qasm\"; }\n",
+            "while (before == 1) { include \"inc0.qasm\"; }\n",
+            "for int lv in [0:1] { include \"inc0.qasm\"; }\n",
+            "switch (before) { case 1 { include \"inc0.qasm\"; } default { include \"inc0.qasm\"; } }\n",
+            "gate holder_g qh { include \"inc0.qasm\"; }\n",
+            "def holder_d() { include \"inc0.qasm\"; }\n",
+            "def holder_e(int pe) { if (pe == 1) { include \"inc0.qasm\"; } }\n",
+        ]));
     }
     // uses of every copy's name: only the copies that were read resolve
     for f in 0..nfiles {
@@ -324,8 +334,11 @@ fn check_layout(seed: u64, obs: &mut Obs) {
     if use_env {
         std::env::set_var("QASM3_PATH", &joined);
     } else {
-        // a misleading environment must be ignored when a list is given
-        std::env::set_var("QASM3_PATH", lay.root.join("nowhere"));
+        // a misleading environment must be ignored when a list is given: it names the
+        // directories that are NOT in the list (files found only there must stay unresolved)
+        let mut others: Vec<PathBuf> = (0..lay.dirs.len()).filter(|d| !lay.search.contains(d)).map(|d| lay.dirs[d].clone()).collect();
+        others.push(lay.root.join("nowhere"));
+        std::env::set_var("QASM3_PATH", std::env::join_paths(others.iter()).unwrap_or_default());
     }
     let main_text = lay.main.clone();
     let r = guard(|| match lay.entry {
@@ -383,7 +396,7 @@ fn check_layout(seed: u64, obs: &mut Obs) {
                     obs.violate(cell("diagnostic-lists-not-tagged-with-included-paths"), format!("{detail_hdr}\ntags {tagged:?}\nfiles read (pre-order) {want:?}"));
                 }
                 // the library that is provided without any file: every gate with its arity
-                if a.symbols.iter().any(|s| s.1.starts_with("Gate(") && s.0 != "U") {
+                if flat.lines().any(|l| l.trim_start().starts_with("include \"stdgates.inc\";")) {
                     for (n, np, nq) in crate::model_resolve::STDGATES {
                         let want = format!("Gate({np}, {nq})");
                         match a.symbols.iter().find(|s| s.0 == *n) {
